@@ -134,7 +134,7 @@ class TabWorld:
                               "writer": w, "kind": kind, "buffer_size": buffer_size, "final": False, "sorted": None}
         self.kinds.add(("writer", fmt, kind, min(buffer_size, 2)))
 
-    def op_append(self, table, rows):
+    def op_append(self, table, rows, reuse=False):
         t = self.tables.get(table)
         if t is None or t["final"] or t["writer"] is None:
             return
@@ -145,10 +145,22 @@ class TabWorld:
         w = t["writer"]
         before = len(t["rows"])
         if t["kind"] == "DataFrame":
-            w.append_data(self._df(cols, types, rows))
+            df = self._df(cols, types, rows)
+            w.append_data(df)
+            if reuse:
+                # the caller recycles its batch frame: overwrite it in place after handing it over
+                for c, ty in zip(cols, types):
+                    df[c] = {"int": -999, "float": -999.5, "str": "sRECYCLED", "bool": False}[ty]
+                self.stats["caller_reused_its_object"] = self.stats.get("caller_reused_its_object", 0) + 1
         elif t["kind"] == "Dicts":
             dicts = [dict(zip(cols, r)) for r in rows]
-            w.append_data(dicts[0] if len(dicts) == 1 else dicts)
+            arg = dicts[0] if len(dicts) == 1 else dicts
+            w.append_data(arg)
+            if reuse and isinstance(arg, list):
+                # the caller recycles its LIST (the row dicts themselves are not touched: the writer may keep references
+                # to them, the statement says nothing about rows mutated after they were appended)
+                arg.clear()
+                self.stats["caller_reused_its_object"] = self.stats.get("caller_reused_its_object", 0) + 1
         else:
             arr = np.array([tuple(r) for r in rows], dtype=self._np_dtype(cols, types)).view(np.recarray)
             for i in range(len(arr)):
@@ -311,7 +323,7 @@ class TabWorld:
                                   f"{first_diff(exp_rows, got)}", **sig)
 
     # --------------------------------------------------------------- merging
-    def op_make_runs(self, group, fmt, runs, descending, extra_types, row_group=None):
+    def op_make_runs(self, group, fmt, runs, descending, extra_types, row_group=None, int_text=False):
         """runs: list of lists of [score(float), id(int)] rows; each run is sorted here and stored as one file."""
         if any(k.startswith(group + "_") for k in self.tables):
             return
@@ -338,11 +350,34 @@ class TabWorld:
                     self.kinds.add(("run_rowgroups", min(3, len(rows) // int(row_group))))
                 else:
                     df.to_parquet(path, index=False)
+            elif int_text:
+                self._write_int_text(path, columns, rows)
+                self.kinds.add(("run_int_text",))
             else:
                 df.to_csv(path, sep="\t", index=False)
             self.tables[name] = {"path": path, "fmt": fmt, "columns": columns, "types": types, "rows": rows,
                                  "writer": None, "kind": "run", "buffer_size": 0, "final": True,
-                                 "sorted": "desc" if descending else "asc"}
+                                 "sorted": "desc" if descending else "asc", "int_text": bool(int_text and fmt != "parquet")}
+
+    @staticmethod
+    def _write_int_text(path, columns, rows):
+        """A file written by another tool: whole-number scores carry no decimal point, so a text reader types the
+        score column per chunk (int64 for a chunk of whole numbers, float64 otherwise)."""
+        with open(path, "w") as fh:
+            fh.write("\t".join(columns) + "\n")
+            for r in rows:
+                whole = float(r[0]) == int(r[0]) and not (r[0] == 0 and math.copysign(1.0, r[0]) < 0)
+                cells = [str(int(r[0])) if whole else repr(float(r[0]))]
+                cells += ["True" if v is True else "False" if v is False else (repr(v) if isinstance(v, float) else str(v))
+                          for v in r[1:]]
+                fh.write("\t".join(cells) + "\n")
+
+    @staticmethod
+    def _same_types(readers):
+        """The table merger requires equal column types of its inputs (sniffed from the first rows of a text file);
+        inputs that do not meet that precondition are outside the merge statement."""
+        ts = [[str(t) for t in r.get_column_types()] for r in readers]
+        return all(t == ts[0] for t in ts)
 
     def _runs(self, group):
         names = sorted((k for k in self.tables if k.startswith(group + "_") and self.tables[k]["kind"] == "run"),
@@ -351,7 +386,10 @@ class TabWorld:
 
     def _check_merge(self, runs, got, descending, what, sig):
         exp = [r for t in runs for r in t["rows"]]
-        key = lambda r: tuple(repr(x) for x in r)  # noqa: E731
+        def key(r):  # numbers compare by value (a chunk of whole numbers may come back as ints)
+            return tuple(repr(x) if isinstance(x, (bool, str)) else repr(float(x)) if isinstance(x, (int, float)) else repr(x)
+                         for x in r)
+
         if sorted(map(key, exp)) != sorted(map(key, [[_norm(v) for v in r] for r in got])):
             miss = len(exp) - len(got)
             raise OracleViolation("merge_multiset", f"{what}: output is not the union of the inputs ({len(got)} rows out, "
@@ -397,6 +435,8 @@ class TabWorld:
             return
         desc = runs[0]["sorted"] == "desc"
         readers = [TabularDataReader.from_path(t["path"]) for t in runs]
+        if not self._same_types(readers):
+            return
         cols = runs[0]["columns"]
         what = f"MergedTabularDataReader.{mode} over {len(runs)} {runs[0]['fmt']} runs ({'desc' if desc else 'asc'}, reader chunk {reader_chunk})"
         sig = {"impl": "table_merger", "mode": mode, "fmt": runs[0]["fmt"]}
@@ -457,9 +497,14 @@ class TabWorld:
         df = self._df(t["columns"], t["types"], rows)
         if t["fmt"] == "parquet":
             df.to_parquet(path, index=False)
+        elif t.get("int_text"):
+            self._write_int_text(path, t["columns"], rows)
         else:
             df.to_csv(path, sep="\t", index=False)
         readers = [TabularDataReader.from_path(path if r is t else r["path"]) for r in runs]
+        if not self._same_types(readers):
+            os.unlink(path)
+            return
         self.stats["sortedness_faults"] += 1
         m = MergedTabularDataReader(readers, "score", descending=desc, reader_chunk_size=reader_chunk)
         try:
